@@ -6,7 +6,7 @@ from props.c03_mpz import mag, rand_mag, UIS
 
 LEAN_MODULES = ["MpirProofs.Props.C01_mpz"]
 THEOREMS = ["Mpir.Mpz.mpz_mul_exact", "Mpir.Mpz.mpz_mul_ui_exact", "Mpir.Mpz.mpz_mul_si_exact", "Mpir.Mpz.mpz_addmul_exact",
-            "Mpir.Mpz.mpz_submul_exact", "Mpir.Mpz.mpz_addmul_ui_exact", "Mpir.Mpz.mpz_submul_ui_exact"]
+            "Mpir.Mpz.mpz_submul_exact", "Mpir.Mpz.mpz_addmul_ui_exact", "Mpir.Mpz.mpz_submul_ui_exact", "Mpir.Mpz.mpz_mul_alias_ok"]
 TRUSTED = ["hand-written object-layer model lean/Mpir/Model/Mpz.lean (mirrors mpz/mul.c, mul_i.h, aorsmul.c, aorsmul_i.c; tied by correspondence on every run)",
            "mpn_mul/mpn_sqr are modelled at this layer by the schoolbook product (mul_basecase model); the algorithm dispatch is the subject of the other C01 parts"]
 ASSUMPTIONS = ["the mpz model is value-level: aliasing enters through the destination's allocation and the identity tests the C makes (w != u, wp == up); "
